@@ -5,21 +5,47 @@ ID = "C15"
 COMPONENTS = ["s_kaclient", "s_kaserver"]
 T4 = ["Keepalive"]
 PROOF_MODULES = ["GrpcProofs.Properties.C15"]
-THEOREMS = ["GrpcProofs.C15." + t for t in ()]
+THEOREMS = ["GrpcProofs.C15." + t for t in (
+    "dead_peer_closed_by_partial", "dead_peer_closed_by", "dead_peer_closed_by_permit", "dead_peer_closed_by_counterexample",
+    "time_can_pass", "adv_is_valid_run", "closed_only_after_silence", "healthy_never_closed",
+    "server_loop_eq", "server_dead_peer_closed_by", "server_healthy_never_closed",
+    "no_goaway_if_spaced", "strikes_accumulate", "third_strike_goaway", "strikes_reset_by_server_write")]
 DESIGN_REF = "DESIGN.md section 8, C15"
 TECHNIQUE = ("Lean 4 timed automata over an explicit virtual clock (Nat ns) for the client and server keepalive loops and the "
              "server ping-strike ledger; inductive invariants over all urgent event sequences; tie T2: the real http2Client / "
              "http2Server run inside a testing/synctest bubble over net.Pipe against a scripted raw-frame peer, virtual time "
              "advanced to exact boundaries, ping / close / GOAWAY instants diffed against the model; T4 for maxPingStrikes "
              "and defaultPingTimeout")
-LEVEL_TEXT = ""
-LEVEL_NOTE = ""
+LEVEL_TEXT = ("Machine-checked Lean proofs, for every Time/Timeout/MinTime >= 1 ns, both PermitWithoutStream values and every urgent "
+              "timeline of delays, frame reads, stream opens/closes, pings and server writes, about timed automata ported from the "
+              "client and server keepalive loops and handlePing: a healthy connection (a frame at least every Time) is never "
+              "closed; a silent one is closed no later than max(lastRead+Time, applicable-since)+Timeout whenever no frame is read "
+              "while the client loop is dormant (always so for the server and with PermitWithoutStream) and at most min(Time,Timeout) "
+              "later otherwise (the literal bound is refuted on a concrete timeline = finding F19); spaced pings never strike; the "
+              "third unforgiven too-early ping sends GOAWAY; a server write forgives. The automata are diffed, under virtual time "
+              "at exact boundaries, against the real http2Client/http2Server on every run.")
+LEVEL_NOTE = ("PARTIAL. Readings: (1) 'applicable' = stream open or PermitWithoutStream; the bound is checked on the virtual clock "
+              "at op granularity (the close instant itself is exact). (2) 'healthy' is monitored locally: never closed at an instant "
+              "t <= lastRead+Time (the theorem gives the stronger lastRead+Time+Timeout <= t). (3) A too-early ping that follows "
+              "server-sent headers/data/trailers is forgiven and restarts the strike run (code: CAS on resetPingStrikes), so after "
+              "a write the GOAWAY comes at the third UNforgiven too-early ping; well spaced pings in between do not reset strikes. "
+              "(4) The first ping of a connection has no predecessor (zero time.Time) and is never a strike. Trusted: Lean kernel; "
+              "the hand model lean/GrpcModel/Model/Keepalive.lean; testing/synctest's virtual clock; x/net/http2 framer of the scripted "
+              "peer. The ghost fields appSince/lateWake/pingAt of the model influence no transition.")
 GAP = ("lastRead / lastPingAt are wall-clock time.Now() readings: inside the synctest bubble they are the virtual clock, in "
        "production a clock step changes them (time.Time comparisons use the monotonic reading, UnixNano() does not); "
        "TCP_USER_TIMEOUT; goroutine scheduling latency between a timer expiry and the loop body; MaxConnectionIdle/Age timers "
        "(left infinite)")
-ASSUMPTIONS = []
-RULE = ""
+ASSUMPTIONS = ["Time, Timeout, MinTime >= 1 ns (0 is replaced by defaults before the loops start; negative durations are not modelled)",
+               "time.Now() is monotone and the same clock for lastRead, prevNano, lastPingAt and the timers (true inside the bubble)",
+               "MaxConnectionIdle / MaxConnectionAge left at infinity; no channelz; StaticWindowSize (no BDP pings)",
+               "a timer expiry, the loop body and the reader's lastRead store are atomic w.r.t. each other at one virtual instant (quiescent-step tie T2)"]
+RULE = ("client: directed timelines at Time, Time+Timeout, +-1 ns, reads exactly at ping/timeout instants, dormancy with streams "
+        "opening before/at/after the expiry, frames read while dormant (late wake) for 6 parameter pairs x PermitWithoutStream, plus "
+        "random timelines (adv biased to boundaries, read ack/ping/settings/window-update, open, done); server: pings spaced exactly "
+        "MinTime / 2h and 1 ns short, strikes interleaved with hdr/data/fin/rst, stream close switching to the 2-hour rule, keepalive "
+        "boundaries, plus random timelines. A case is non-trivial if the real transport emitted a keepalive ping, closed, or sent a "
+        "GOAWAY; distinct = distinct op sequence.")
 
 S = 10 ** 9
 H2 = 7200 * S
